@@ -1982,9 +1982,8 @@ func (m *Machine) builtin(b *ssa.Builtin, args []Value, call *ssa.CallCommon, si
 				panic(unsupported("min/max on non-integers"))
 			}
 			if b.Name() == "max" {
-				lt = smt.Not(smt.Or(lt, smt.Eq(t, r)))
-				r = smt.Ite(lt, r, t)
-				_ = lt
+				gt := smt.Not(smt.Or(lt, smt.Eq(t, r))) // t > r
+				r = smt.Ite(gt, t, r)
 				continue
 			}
 			r = smt.Ite(lt, t, r)
